@@ -138,3 +138,86 @@ def oracle(seed, tier):
             res.nontrivial.add((obj, tuple(h)))
     res.samples.append({'object_len': 8, 'history': [[0, 3], [0, 5], [5, 3]]})
     return res
+
+
+# ---------------------------------------------------------------------------
+# The output manager around the defer queue, with several request threads: chunks released in
+# offset order must also reach the io executor, and the stream, in that order (C16, C02, C10's
+# "in the order they were queued").  Real DownloadNonSeekableOutputManager, TransferCoordinator
+# and BoundedExecutor (one io worker, small queue) under the deterministic scheduler.
+
+def manager_run(seed, nthreads, chunks, io_queue, mode):
+    from sched import Scheduler
+    from shim import Installed
+    sch = Scheduler(seed=seed, mode=mode, max_steps=50000)
+    out = {'written': [], 'errors': []}
+    with Installed(sch, modules=['utils', 'futures', 'download']) as sh:
+        from s3transfer.download import DownloadNonSeekableOutputManager
+        from s3transfer.futures import BoundedExecutor, TransferCoordinator
+        from s3transfer.utils import OSUtils
+
+        class Sink:
+            def write(self, b):
+                sch.point('sink-write')
+                out['written'].append(bytes(b))
+        coord = TransferCoordinator(transfer_id=1)
+        io = BoundedExecutor(io_queue, 1, executor_cls=sh.Executor)
+        mgr = DownloadNonSeekableOutputManager(OSUtils(), coord, io)
+        sink = Sink()
+        per = [chunks[i::nthreads] for i in range(nthreads)]
+
+        def worker(mine):
+            def run():
+                for off, data in mine:
+                    sch.point('got-chunk')
+                    mgr.queue_file_io_task(sink, data, off)
+            return run
+
+        def main():
+            ts = [sch.spawn(worker(m), 'r%d' % i) for i, m in enumerate(per)]
+            sch.block_until(lambda: all(t.finished for t in ts), 'join')
+            io.shutdown()
+        out['failure'] = sch.run(main, timeout=30)
+        out['choices'] = list(sch.choices)
+    return out
+
+
+def manager_oracle(seed, tier, prop='C16'):
+    res = OracleResult(prop)
+    rng = rng_for(seed, 'defer-manager')
+    for i in range(300 if tier == 'quick' else 6000):
+        n = rng.randrange(2, 7)
+        data = obj_bytes(rng.randrange(n, 4 * n))
+        cuts = sorted(rng.sample(range(1, len(data)), n - 1)) if len(data) > n else list(range(1, n))
+        bounds = [0] + cuts + [len(data)]
+        chunks = [(bounds[k], data[bounds[k]:bounds[k + 1]]) for k in range(len(bounds) - 1) if bounds[k] < bounds[k + 1]]
+        order = chunks[:]
+        if rng.random() < 0.7:
+            rng.shuffle(order)
+        nthreads = rng.randrange(2, 4)
+        io_queue = rng.choice([1, 1, 2, 3])
+        mode = ['uniform', 'sticky', 'pct', 'stall'][i % 4]
+        out = manager_run(rng.randrange(1 << 30), nthreads, order, io_queue, mode)
+        res.evaluations += 1
+        wit = {'object_len': len(data), 'chunks_in_arrival_order': [(o, len(d)) for o, d in order], 'request_threads': nthreads,
+               'max_io_queue_size': io_queue, 'mode': mode, 'schedule': out['choices'][:300]}
+        res.nontrivial.add((len(chunks), nthreads, io_queue, tuple(o for o, _ in order) != tuple(sorted(o for o, _ in order))))
+        if out['failure'] is not None:
+            res.violation('manager-hang', wit, repr(out['failure']))
+            continue
+        got = b''.join(out['written'])
+        if got != data:
+            res.violation('stream-writes-out-of-order' if sorted(got) == sorted(data) and len(got) == len(data) else 'stream-bytes-wrong',
+                          dict(wit, written=[len(w) for w in out['written']]),
+                          'non-seekable output manager with %d request threads: the stream received %d bytes, %s'
+                          % (nthreads, len(got), 'in the wrong order' if len(got) == len(data) else 'expected %d' % len(data)))
+    res.samples.append(wit)
+    return res
+
+
+def manager_oracle_c02(seed, tier):
+    return manager_oracle(seed, tier, 'C02')
+
+
+def manager_oracle_c10(seed, tier):
+    return manager_oracle(seed, tier, 'C10')
